@@ -46,6 +46,9 @@ type rootsCase struct {
 	Seed  int64 `json:"seed,omitempty"`
 	// halfmissing
 	Missing string `json:"missing,omitempty"`
+	// near: the four stored instants as offsets in seconds from now, one of them only seconds away
+	// (the order types keep every instant an hour or more from now)
+	OffsetsS [4]int64 `json:"offsets_s,omitempty"`
 }
 
 func (rc rootsCase) opts(s *world.Server) []nodeenrollment.Option {
@@ -575,6 +578,22 @@ func runRootsCase(c *engine.Ctx, rc rootsCase) {
 			k.wellFormed(ret.Current, "current")
 			k.wellFormed(ret.Next, "next")
 		}
+	case "near":
+		r.Eval(desc, true)
+		ck, nk := world.NewKeys(), world.NewKeys()
+		now := time.Now()
+		at := func(i int) time.Time { return now.Add(time.Duration(rc.OffsetsS[i]) * time.Second) }
+		pre, err := storeCrafted(s, ck, nk, at(0), at(1), at(2), at(3))
+		if err != nil {
+			r.Broken("crafted store: " + err.Error())
+			return
+		}
+		if time.Since(now) > 3*time.Second {
+			r.Count("near_cases_skipped(setup took seconds)", 1)
+			return
+		}
+		r.Count("near_boundary_cases", 1)
+		k.call(preState{present: true, cur: pre.Current, nxt: pre.Next}, true, fmt.Sprintf("instants at %v s from now", rc.OffsetsS))
 	case "order":
 		r.Eval(desc, true)
 		ck, nk := world.NewKeys(), world.NewKeys()
@@ -721,6 +740,16 @@ func runRoots(c *engine.Ctx) engine.Result {
 			}
 		}
 	}
+	// one instant only seconds from now, on either side (a tolerance slipped into one of the comparisons shows here)
+	for _, m := range []int64{8, 20, 45} {
+		for _, o := range [][4]int64{
+			{+m, 36000, 18000, 54000}, {+m, 36000, -3600, 54000}, {+m, 36000, -7200, -3600}, {-m, 36000, 18000, 54000},
+			{-36000, 18000, -m, 54000}, {-36000, 18000, +m, 54000}, {-36000, -m, -18000, 18000}, {-36000, +m, -18000, 18000},
+			{-36000, 18000, -54000, -m}, {-36000, 18000, -54000, +m}, {-36000, -m, 18000, 54000}, {-54000, -36000, -18000, -m},
+		} {
+			cases = append(cases, rootsCase{Kind: "near", OffsetsS: o, LifetimeS: 36000, NbSkewS: -300, NaSkewS: 300, Backend: world.Inmem, Wrap: m == 20})
+		}
+	}
 	for _, be := range []string{world.Inmem, world.File} {
 		for _, wrap := range []bool{false, true} {
 			cases = append(cases, rootsCase{Kind: "unreadable", LifetimeS: 36000, NbSkewS: -300, NaSkewS: 300, Wrap: wrap, Backend: be})
@@ -751,5 +780,6 @@ func runRoots(c *engine.Ctx) engine.Result {
 	r.Require("unreadable_roots:refused:other-wrapper", 4)
 	r.Require("unreadable_roots:refused:no-wrapper", 4)
 	r.Require("unreadable_roots:refused:fault", 8)
+	r.Require("near_boundary_cases", 30)
 	return res
 }
